@@ -13,6 +13,7 @@ import (
 	"fmt"
 	"math"
 	"reflect"
+	"sort"
 	"strings"
 	"sync"
 	"testing"
@@ -44,15 +45,32 @@ func i64(v int64) *int64 { return &v }
 
 // ---- generator --------------------------------------------------------------
 
+// decimalLandmarks: numbers whose decimal text sits at a boundary (digit count changes, round numbers). Most numeric
+// fields of the tracer packs travel as decimal text, so these are to them what the powers of two are to binary fields.
+var decimalLandmarks = func() []int64 {
+	out := []int64{0, 7, 64, 100, 128, 255, 256, 512, 999, 1000, 1001, 1023, 1024, 4095, 4096, 9999, 10000, 10001, 32767, 32768, 65535, 65536, 99999, 100000, 1000000}
+	p := int64(10)
+	for k := 1; k <= 18; k++ {
+		out = append(out, p-1, p, p+1, -(p - 1), -p, -(p + 1))
+		p *= 10
+	}
+	return out
+}()
+
+// textNumber: the boundary-biased 64-bit generator mixed with decimal landmarks and small counts.
+func textNumber() *rapid.Generator[int64] {
+	return rapid.OneOf(gen.Int64(), gen.Int64(), rapid.SampledFrom(decimalLandmarks), rapid.Int64Range(0, 1200))
+}
+
 func drawField(t *rapid.T, d *desc, f fld) Field {
 	out := Field{F: f.name}
 	switch f.typ.Kind() {
 	case reflect.Int64:
-		out.I = i64(gen.Int64().Draw(t, f.name))
+		out.I = i64(textNumber().Draw(t, f.name))
 	case reflect.Int32:
-		out.I = i64(int64(gen.Int32().Draw(t, f.name)))
+		out.I = i64(int64(int32(textNumber().Draw(t, f.name))))
 	case reflect.Int16:
-		out.I = i64(int64(gen.Int16().Draw(t, f.name)))
+		out.I = i64(int64(int16(textNumber().Draw(t, f.name))))
 	case reflect.Bool:
 		out.I = i64(int64(rapid.IntRange(0, 1).Draw(t, f.name)))
 	case reflect.String:
@@ -634,6 +652,95 @@ var gridSweep = pbt.RegisterSweep(pbt.Sweep{
 		return map[string]interface{}{"type": c.Type, "ver": c.Ver}
 	},
 })
+
+// ---- every small number in every numeric field ---------------------------------------------------------------
+// Counts, status codes, depths, fetch sizes are small numbers; the writers render them through helper tables and
+// special cases (zero as empty text). Every value of a contiguous range is put into every numeric field at once.
+
+var smallTypes = func() []*desc {
+	// the pack types with the most numeric fields (all of them in the thorough tier)
+	type cnt struct {
+		d *desc
+		n int
+	}
+	var cs []cnt
+	for _, d := range descs {
+		n := 0
+		for _, f := range fieldsOf(d.mk(50100)) {
+			switch f.typ.Kind() {
+			case reflect.Int16, reflect.Int32, reflect.Int64:
+				if f.name != "Ver" && !d.readerParam[f.name] {
+					n++
+				}
+			}
+		}
+		if n > 0 {
+			cs = append(cs, cnt{d, n})
+		}
+	}
+	sort.SliceStable(cs, func(i, j int) bool { return cs[i].n > cs[j].n })
+	if !pbt.Thorough() && len(cs) > 6 {
+		cs = cs[:6]
+	}
+	var out []*desc
+	for _, c := range cs {
+		out = append(out, c.d)
+	}
+	return out
+}()
+
+var smallVersions = []int32{10111, 20105, 30104, 40002, 50102}
+
+var smallLo, smallHi = pbt.Pick(-100, -1100), pbt.Pick(1100, 4200)
+
+func smallCase(i uint64) CarriageCase {
+	per := uint64(smallHi - smallLo + 1)
+	v := int64(i%per) + int64(smallLo)
+	i /= per
+	ver := smallVersions[int(i)%len(smallVersions)]
+	d := smallTypes[int(i)/len(smallVersions)]
+	c := CarriageCase{Type: d.name, Ver: ver}
+	for k, f := range fieldsOf(d.mk(ver)) {
+		if f.name == "Ver" || !fillable(f) || d.readerParam[f.name] {
+			continue
+		}
+		fv := Field{F: f.name}
+		switch f.typ.Kind() {
+		case reflect.Int64, reflect.Int32, reflect.Int16:
+			fv.I = i64(v)
+		case reflect.Bool:
+			fv.I = i64(int64(k & 1))
+		default:
+			if f.typ == tInt16s {
+				fv.A = []int16{int16(v), 0, 1, -1, 5}
+			} else {
+				fv.S = &Str{S: fmt.Sprintf("%s=%d", f.name, v)}
+			}
+		}
+		c.Fields = append(c.Fields, fv)
+	}
+	if d.name == "ActiveStack" {
+		for j := range c.Fields {
+			if c.Fields[j].F == "Data" {
+				c.Fields[j].S = &Str{S: fmt.Sprintf("1, %d, at main.f(file.go:1)", v)}
+			}
+		}
+	}
+	return c
+}
+
+var smallSweep = pbt.RegisterSweep(pbt.Sweep{
+	Prop: "C07", Name: "small-numbers",
+	Rule: fmt.Sprintf("exhaustive: every integer %d..%d put into all numeric fields at once, for the pack types with the most numeric fields (6 in the quick tier, all in the thorough tier) x one version of each of the five families; judged by the carriage oracle (what the writer carries comes back); non-trivial = a carried numeric field", smallLo, smallHi),
+	N:    uint64(len(smallTypes) * len(smallVersions) * (smallHi - smallLo + 1)),
+	Run: func(i uint64) (bool, error) {
+		r := pbt.SafeRun(func() *pbt.Result { return runCarriage(smallCase(i)) })
+		return r.NT, r.Err
+	},
+	Show: func(i uint64) interface{} { return smallCase(i) },
+})
+
+func TestSmallNumbers(t *testing.T) { smallSweep.Check(t, 4) }
 
 func TestCarriageGrid(t *testing.T) {
 	gridSweep.Check(t, 1)
